@@ -278,4 +278,292 @@ theorem fixed_timestamp_immature (cfg : Cfg) (db : HeaderDb) (env : Env) (i now 
 example : medianTime [⟨1, 0, 0, 1000, 0⟩, ⟨2, 1, 0, 3000, 1⟩, ⟨3, 2, 0, 2000, 2⟩] 3 3 = some 2000 := by
   decide
 
+/-! ## Resolution -/
+
+/-- the number of dep slots a transaction's cell deps expand to -/
+def expansion (p : Provider) (tx : TxRefs) : Nat := (tx.deps.map (depCost p)).sum
+
+/-- **resolve_ok_iff.** `resolve_transaction` succeeds exactly when: (unless the transaction is a
+cellbase) the inputs are pairwise distinct and each is live in the (overlay) provider and not already
+spent by an earlier transaction of the same block (`seen`); every cell dep — and for a dep group its
+cell, whose data must be a non-empty out-point vector, and every member — is live and not in `seen`;
+the deps expand to at most MAX_DEP_EXPANSION_LIMIT entries; every header dep is on the main chain. -/
+theorem resolve_ok_iff (seen : List OutPoint) (p : Provider) (valid : Nat → Bool) (tx : TxRefs) :
+    (∃ r, resolveTx seen p valid tx = .ok r) ↔
+      (tx.isCellbase = true ∨ (tx.inputs.Nodup ∧ ∀ x ∈ tx.inputs, Usable seen p x)) ∧
+      (∀ d ∈ tx.deps, DepOk seen p d) ∧
+      expansion p tx ≤ MAX_DEP_EXPANSION_LIMIT ∧
+      (∀ h ∈ tx.headerDeps, valid h = true) := by
+  unfold resolveTx expansion
+  have hin : (∃ cur, (if tx.isCellbase then (Except.ok [] : Except RErr (List OutPoint))
+      else resolveInputs seen p tx.inputs []) = .ok cur) ↔
+      (tx.isCellbase = true ∨ (tx.inputs.Nodup ∧ ∀ x ∈ tx.inputs, Usable seen p x)) := by
+    by_cases hc : tx.isCellbase = true
+    · simp [hc]
+    · have := resolveInputs_ok_iff seen p tx.inputs []
+      simp only [hc, Bool.false_eq_true, if_false, this, false_or, List.not_mem_nil, not_false_eq_true,
+        implies_true, true_and]
+  have hdeps := resolveDeps_ok_iff seen p tx.deps MAX_DEP_EXPANSION_LIMIT [] []
+  have hh := checkHeaders_ok_iff valid tx.headerDeps
+  rw [← hin, ← hh, ← and_assoc (b := (∀ d ∈ tx.deps, DepOk seen p d)), ← hdeps]
+  cases h1 : (if tx.isCellbase then (Except.ok [] : Except RErr (List OutPoint))
+      else resolveInputs seen p tx.inputs []) with
+  | error e => simp
+  | ok cur =>
+    cases h2 : resolveDeps seen p tx.deps MAX_DEP_EXPANSION_LIMIT [] [] with
+    | error e => simp
+    | ok r2 =>
+      obtain ⟨cds, gs⟩ := r2
+      cases h3 : checkHeaders valid tx.headerDeps with
+      | error e => simp
+      | ok u => cases u; simp
+
+example : ∃ r, resolveTx [] (fun op => if op.tx = 1 then .live none else .unknown) (fun _ => true)
+    ⟨[⟨1, 0⟩, ⟨1, 1⟩], false, [⟨⟨1, 2⟩, false⟩], [7]⟩ = .ok r := ⟨_, rfl⟩
+
+/-- **resolve_seen.** on success `seen_inputs` grows by exactly the transaction's inputs (nothing for
+a cellbase), and on failure the caller's set is untouched (the function returns no new set) -/
+theorem resolve_seen {seen : List OutPoint} {p : Provider} {valid : Nat → Bool} {tx : TxRefs}
+    {r : Resolved} {seen' : List OutPoint} (h : resolveTx seen p valid tx = .ok (r, seen')) :
+    seen' = seen ++ (if tx.isCellbase then [] else tx.inputs) ∧ r.inputs = (if tx.isCellbase then [] else tx.inputs) := by
+  unfold resolveTx at h
+  cases h1 : (if tx.isCellbase then (Except.ok [] : Except RErr (List OutPoint))
+      else resolveInputs seen p tx.inputs []) with
+  | error e => simp [h1] at h
+  | ok cur =>
+    simp only [h1] at h
+    cases h2 : resolveDeps seen p tx.deps MAX_DEP_EXPANSION_LIMIT [] [] with
+    | error e => simp [h2] at h
+    | ok r2 =>
+      obtain ⟨cds, gs⟩ := r2
+      simp only [h2] at h
+      cases h3 : checkHeaders valid tx.headerDeps with
+      | error e => simp [h3] at h
+      | ok u =>
+        simp only [h3] at h
+        have hcur : cur = (if tx.isCellbase then [] else tx.inputs) := by
+          by_cases hc : tx.isCellbase = true
+          · simp [hc] at h1 ⊢; exact h1
+          · simp only [hc, Bool.false_eq_true, if_false] at h1 ⊢
+            simpa using resolveInputs_val h1
+        cases h
+        exact ⟨by rw [hcur], hcur⟩
+
+/-- what a block's transaction list needs, transaction by transaction, with `seen` = the inputs of
+the earlier non-cellbase transactions -/
+def TxsOk (p : Provider) (valid : Nat → Bool) : List OutPoint → List TxRefs → Prop
+  | _, [] => True
+  | seen, tx :: rest =>
+    ((tx.isCellbase = true ∨ (tx.inputs.Nodup ∧ ∀ x ∈ tx.inputs, Usable seen p x)) ∧
+      (∀ d ∈ tx.deps, DepOk seen p d) ∧ expansion p tx ≤ MAX_DEP_EXPANSION_LIMIT ∧
+      (∀ h ∈ tx.headerDeps, valid h = true)) ∧
+    TxsOk p valid (seen ++ (if tx.isCellbase then [] else tx.inputs)) rest
+
+/-- **resolveTxs_ok_iff.** (block side, by induction over the transaction list) a block's
+transactions all resolve iff each one satisfies `resolve_ok_iff`'s conditions with `seen`
+accumulated from its predecessors — so no out point is spent twice in the block, and a cell spent by
+an earlier transaction cannot be used as a dep by a later one. -/
+theorem resolveTxs_ok_iff (p : Provider) (valid : Nat → Bool) (seen : List OutPoint) (txs : List TxRefs) :
+    (∃ r, resolveTxs p valid seen txs = .ok r) ↔ TxsOk p valid seen txs := by
+  induction txs generalizing seen with
+  | nil => simp [resolveTxs, TxsOk]
+  | cons tx rest ih =>
+    unfold resolveTxs TxsOk
+    rw [← resolve_ok_iff]
+    cases h : resolveTx seen p valid tx with
+    | error e => simp
+    | ok r =>
+      obtain ⟨r, seen'⟩ := r
+      have hs := (resolve_seen h).1
+      simp only [← hs, ← ih]
+      cases h2 : resolveTxs p valid seen' rest with
+      | error e => simp
+      | ok r2 => obtain ⟨a, b⟩ := r2; simp
+
+example : TxsOk (fun op => if op.tx = 1 then .live none else .unknown) (fun _ => true) []
+    [⟨[⟨1, 0⟩], false, [], []⟩, ⟨[⟨1, 1⟩], false, [], []⟩] ∧
+    ¬ TxsOk (fun op => if op.tx = 1 then .live none else .unknown) (fun _ => true) []
+    [⟨[⟨1, 0⟩], false, [], []⟩, ⟨[⟨1, 0⟩], false, [], []⟩] := by
+  constructor
+  · simp [TxsOk, Usable, expansion]
+  · simp [TxsOk, Usable, expansion]
+
+/-! ## Capacity -/
+
+/-- bytes a cell occupies: capacity field + data + lock (args + 33) + type (args + 33, if any) -/
+def occBytes (o : Output) : Nat :=
+  CAPACITY_FIELD_BYTES + o.dataLen + (o.lockArgs + SCRIPT_FIXED_BYTES) +
+    (match o.typeArgs with | none => 0 | some a => a + SCRIPT_FIXED_BYTES)
+
+/-- **capacity_ok_iff.** `CapacityVerifier` accepts iff (cellbase / DAO-withdraw exemption, or both
+sums fit u64 and outputs ≤ inputs) and every output's capacity covers its occupied bytes at
+10^8 shannons per byte (all in range of u64). -/
+theorem capacity_ok_iff (exempt : Bool) (ins : List Nat) (outs : List Output) :
+    capacityVerify exempt ins outs = .ok ↔
+      (exempt = true ∨ (ins.sum < 2 ^ 64 ∧ (outs.map (·.capacity)).sum < 2 ^ 64 ∧
+        (outs.map (·.capacity)).sum ≤ ins.sum)) ∧
+      ∀ o ∈ outs, occBytes o * BYTE_SHANNONS < 2 ^ 64 ∧ occBytes o * BYTE_SHANNONS ≤ o.capacity := by
+  have hsum : ∀ (l : List Nat) (acc : Nat), acc < Tx.U64 →
+      sumCapsL acc l = if acc + l.sum < Tx.U64 then some (acc + l.sum) else none := by
+    intro l
+    induction l with
+    | nil => intro acc h; simp [sumCapsL, h]
+    | cons c rest ih =>
+      intro acc h
+      unfold sumCapsL safeAdd
+      by_cases h1 : acc + c < Tx.U64
+      · simp [h1, ih (acc + c) h1, List.sum_cons, Nat.add_assoc]
+      · have : ¬ acc + (c + rest.sum) < Tx.U64 := by omega
+        simp [h1, this]
+  have hocc : ∀ o : Output, (match capBytes o.dataLen with
+      | none => none
+      | some dc => occupied o dc) =
+      if occBytes o * BYTE_SHANNONS < Tx.U64 then some (occBytes o * BYTE_SHANNONS) else none := by
+    intro o
+    have hU : Tx.U64 = 18446744073709551616 := by decide
+    unfold occupied scriptOccupied capBytes safeAdd occBytes
+    simp only [BYTE_SHANNONS, CAPACITY_FIELD_BYTES, SCRIPT_FIXED_BYTES]
+    generalize Tx.U64 = U at *
+    subst hU
+    cases o.typeArgs <;> (repeat' split) <;> simp_all <;> omega
+  have hout : ∀ (l : List Output) (i : Nat), checkOutputs i l = .ok ↔
+      ∀ o ∈ l, occBytes o * BYTE_SHANNONS < 2 ^ 64 ∧ occBytes o * BYTE_SHANNONS ≤ o.capacity := by
+    intro l
+    induction l with
+    | nil => intro i; simp [checkOutputs]
+    | cons o rest ih =>
+      intro i
+      have ho := hocc o
+      unfold checkOutputs
+      cases hc : capBytes o.dataLen with
+      | none =>
+        simp only [hc] at ho
+        have : ¬ occBytes o * BYTE_SHANNONS < 2 ^ 64 := by
+          intro h; unfold Tx.U64 at ho; simp [h] at ho
+        simp [this]
+      | some dc =>
+        simp only [hc] at ho
+        by_cases hlt : occBytes o * BYTE_SHANNONS < 2 ^ 64
+        · have hlt' : occBytes o * BYTE_SHANNONS < Tx.U64 := hlt
+          simp only [hlt', if_true] at ho
+          simp only [ho, List.mem_cons, forall_eq_or_imp, hlt, true_and]
+          by_cases hcap : occBytes o * BYTE_SHANNONS > o.capacity
+          · simp [hcap]; omega
+          · simp only [hcap, if_false, ih]
+            constructor
+            · intro h; exact ⟨by omega, h⟩
+            · intro h; exact h.2
+        · have hlt' : ¬ occBytes o * BYTE_SHANNONS < Tx.U64 := hlt
+          simp only [hlt', if_false] at ho
+          simp [ho, hlt]
+  unfold capacityVerify
+  by_cases he : exempt = true
+  · simp [he, hout]
+  · have he' : exempt = false := by cases exempt <;> simp_all
+    have h0 : (0 : Nat) < Tx.U64 := by decide
+    simp only [he', Bool.not_false, if_true, hsum _ 0 h0, Nat.zero_add, Bool.false_eq_true, false_or]
+    by_cases h1 : ins.sum < Tx.U64
+    · by_cases h2 : (outs.map (·.capacity)).sum < Tx.U64
+      · have h1' : ins.sum < 2 ^ 64 := h1
+        have h2' : (outs.map (·.capacity)).sum < 2 ^ 64 := h2
+        simp only [h1, h2, if_true, h1', h2', true_and]
+        by_cases h3 : ins.sum < (outs.map (·.capacity)).sum
+        · simp [h3]; omega
+        · simp only [h3, if_false, hout]
+          constructor
+          · intro h; exact ⟨by omega, h⟩
+          · intro h; exact h.2
+      · have h2' : ¬ (outs.map (·.capacity)).sum < 2 ^ 64 := h2
+        simp [h1, h2, h2']
+    · have h1' : ¬ ins.sum < 2 ^ 64 := h1
+      simp [h1, h1']
+
+example : capacityVerify false [6100000000] [⟨6100000000, 20, none, 0⟩] = .ok ∧
+    capacityVerify false [6100000000] [⟨6099999999, 20, none, 0⟩] = .insufficient 0 ∧
+    capacityVerify false [6099999999] [⟨6100000000, 20, none, 0⟩] = .outputsSumOverflow := by decide
+
+/-! ## The verdict depends on the transaction and the chain context only -/
+
+/-- two node states present the same chain context to a transaction: the same live-cell view, the
+same set of already-spent out points (in any order, with any multiplicity — however the node
+accumulated it), the same main-chain headers, cell facts, consensus parameters, header database
+(median times), commit environment and script oracle -/
+structure SameContext (c1 c2 : Ctx) : Prop where
+  provider : ∀ op, c1.provider op = c2.provider op
+  seen : ∀ op, op ∈ c1.seen ↔ op ∈ c2.seen
+  validHeader : ∀ h, c1.validHeader h = c2.validHeader h
+  facts : ∀ op, c1.facts op = c2.facts op
+  cfg : c1.cfg = c2.cfg
+  headers : c1.headers = c2.headers
+  env : c1.env = c2.env
+  script : c1.script = c2.script
+  maxCycles : c1.maxCycles = c2.maxCycles
+
+theorem resolveTx_congr_seen (s1 s2 : List OutPoint) (hs : ∀ op, op ∈ s1 ↔ op ∈ s2)
+    (p : Provider) (valid : Nat → Bool) (tx : TxRefs) :
+    (resolveTx s1 p valid tx).map (·.1) = (resolveTx s2 p valid tx).map (·.1) := by
+  have hc : ∀ op, resolveCell s1 p op = resolveCell s2 p op := by
+    intro op; unfold resolveCell; simp only [hs op]
+  have hi : ∀ l cur, resolveInputs s1 p l cur = resolveInputs s2 p l cur := by
+    intro l; induction l with
+    | nil => intro cur; rfl
+    | cons op rest ih => intro cur; unfold resolveInputs; simp only [hc, ih]
+  have hm : ∀ l, resolveMembers s1 p l = resolveMembers s2 p l := by
+    intro l; induction l with
+    | nil => rfl
+    | cons op rest ih => unfold resolveMembers; simp only [hc, ih]
+  have hd : ∀ l slots a b, resolveDeps s1 p l slots a b = resolveDeps s2 p l slots a b := by
+    intro l; induction l with
+    | nil => intro _ _ _; rfl
+    | cons d rest ih => intro slots a b; unfold resolveDeps; simp only [hc, hm, ih]
+  unfold resolveTx
+  simp only [hi, hd]
+  cases (if tx.isCellbase then (Except.ok [] : Except RErr (List OutPoint)) else resolveInputs s2 p tx.inputs []) with
+  | error e => rfl
+  | ok cur =>
+    cases resolveDeps s2 p tx.deps MAX_DEP_EXPANSION_LIMIT [] [] with
+    | error e => rfl
+    | ok r => obtain ⟨a, b⟩ := r; cases checkHeaders valid tx.headerDeps <;> rfl
+
+/-- **verdict_depends_only_on_tx_and_ctx.** -/
+theorem verdict_depends_only_on_tx_and_ctx (c1 c2 : Ctx) (h : SameContext c1 c2) (tx : TxBody) :
+    verdict c1 tx = verdict c2 tx := by
+  have hp : c1.provider = c2.provider := funext h.provider
+  have hv : c1.validHeader = c2.validHeader := funext h.validHeader
+  have hf : c1.facts = c2.facts := funext h.facts
+  have hr := resolveTx_congr_seen c1.seen c2.seen h.seen c2.provider c2.validHeader tx.refs
+  unfold verdict
+  rw [hp, hv, hf, h.cfg, h.headers, h.env, h.script, h.maxCycles]
+  cases h1 : resolveTx c1.seen c2.provider c2.validHeader tx.refs with
+  | error e =>
+    rw [h1] at hr
+    cases h2 : resolveTx c2.seen c2.provider c2.validHeader tx.refs with
+    | error e2 => rw [h2] at hr; simp [Except.map] at hr; simp [hr]
+    | ok r2 => rw [h2] at hr; simp [Except.map] at hr
+  | ok r1 =>
+    rw [h1] at hr
+    cases h2 : resolveTx c2.seen c2.provider c2.validHeader tx.refs with
+    | error e2 => rw [h2] at hr; simp [Except.map] at hr
+    | ok r2 =>
+      rw [h2] at hr; simp [Except.map] at hr
+      obtain ⟨a1, b1⟩ := r1; obtain ⟨a2, b2⟩ := r2
+      simp only at hr; subst hr; rfl
+
+/-- **block_and_pool_agree.** the block side (`Committed` env built from the block's own header) and
+the pool side (`Proposed`/`Submitted` env built from the tip) run the same function; whenever the
+two envs denote the same commit position — same commit block number, same epoch, same parent for
+the median time, same commit epoch number — every since check gives the same answer. -/
+theorem block_and_pool_agree (cfg : Cfg) (db : HeaderDb) (eb ep : Env) (i s : Nat) (info : Option TxInfo)
+    (hn : eb.blockNumber cfg.closest = ep.blockNumber cfg.closest) (he : eb.epoch = ep.epoch)
+    (hp : eb.parentOfCommit = ep.parentOfCommit) (hen : eb.epochNumber cfg.closest = ep.epochNumber cfg.closest) :
+    checkSince cfg db eb i s info = checkSince cfg db ep i s info := by
+  unfold checkSince verifyAbsolute verifyRelative relBaseTimestamp
+  simp only [hn, he, hp, hen]
+
+/-- the pool's `Proposed(n)` env at tip `t` and the block's `Committed` env for the block `t+1` denote
+the same commit position for block-number and timestamp purposes exactly when the transaction is
+committed at the earliest allowed block (n = closest − 1) -/
+example : (Env.blockNumber ⟨.proposed 1, 10, 0, 5, 4⟩ 2 = Env.blockNumber ⟨.committed, 11, 0, 6, 5⟩ 2) ∧
+    (Env.parentOfCommit ⟨.proposed 1, 10, 0, 5, 4⟩ = Env.parentOfCommit ⟨.committed, 11, 0, 6, 5⟩) := by decide
+
 end CkbVerif.C04
